@@ -2,6 +2,7 @@ package props
 
 import (
 	"bytes"
+	"fmt"
 	"image"
 	"os"
 	"path/filepath"
@@ -64,6 +65,20 @@ func seeds() []seedFile {
 		add("lossless-pal", mustEncode(mkImg(9, 9, "pal4", "opaque", 7), func(o *gen.Opts) { o.Lossless = true; o.Method = 6; o.SetQuality(100) }))
 		add("lossless-photo-alpha", mustEncode(mkImg(33, 20, "photo", "levels", 8), func(o *gen.Opts) { o.Lossless = true }))
 		add("lossless-tiled", mustEncode(mkImg(64, 40, "tiled", "opaque", 9), func(o *gen.Opts) { o.Lossless = true; o.Method = 4 }))
+		// narrow lossless pictures: short plane-code distances wrap/clamp at small widths
+		for i, d := range [][2]int{{1, 40}, {2, 33}, {3, 21}, {5, 17}, {7, 9}} {
+			add(fmt.Sprintf("lossless-narrow-%dx%d", d[0], d[1]), mustEncode(mkImg(d[0], d[1], []string{"tiled", "pal4", "sparse", "tiled", "pal16"}[i], "opaque", uint64(30+i)), func(o *gen.Opts) { o.Lossless = true; o.Method = 2 + i%4 }))
+		}
+		// /verif-generated VP8L streams (backward references with every plane code, caches, meta codes)
+		for i, wdt := range []int{1, 2, 4, 6, 13} {
+			p := &gen.VP8LProg{W: wdt, H: 12 + i, CacheBits: i % 3, RefPct: 60, CachePct: 10 * (i % 3), LitSpread: 3, CodeStyle: "mixed", LongDist: i%2 == 0, Seed: uint64(900 + i)}
+			if i == 4 {
+				p.MetaBits, p.Groups = 2, 3
+				p.Transforms = []gen.VP8LTransform{{Type: 3, NPal: 5}, {Type: 0, Bits: 2}}
+			}
+			bs, _ := p.Build()
+			add(fmt.Sprintf("vp8lgen-w%d", wdt), xref.Simple("VP8L", bs))
+		}
 		meta := func(o *gen.Opts) {
 			o.ICC, o.ICCNil = []byte("ICCPROFILE!"), false
 			o.EXIF, o.EXIFNil = []byte("Exif\x00\x00II*\x00"), false
